@@ -104,6 +104,7 @@ func (e *fnEnc) instr(in ssa.Instruction) {
 		}
 	case *ssa.Store:
 		v := e.get(in.Val)
+		e.lastStoreVal = in.Val
 		d := e.descOf(in.Addr)
 		if d == nil {
 			e.unsupported(in, "store through unknown address")
@@ -373,6 +374,10 @@ func (e *fnEnc) storeDesc(d *addrDesc, v Term) {
 		e.storeStruct(d.ref, d.T, v)
 	case aLocalArr:
 		e.localArr[d.arr][d.idx] = v
+		if e.localArrV[d.arr] == nil {
+			e.localArrV[d.arr] = map[int]ssa.Value{}
+		}
+		e.localArrV[d.arr][d.idx] = e.lastStoreVal
 	case aSliceElem:
 		e.imprecise = append(e.imprecise, "store through slice element (slices are values in this model)")
 		e.oblig("subset", "slice-elem-store", nil, e.curReach, "false", token.NoPos)
@@ -564,6 +569,11 @@ func (e *fnEnc) sliceOp(in *ssa.Slice) {
 			nt = e.define(in, Term{S: term, Sort: s})
 		}
 		e.lits[nt.S] = elems
+		var vals []ssa.Value
+		for i := 0; i < int(arrT.Len()); i++ {
+			vals = append(vals, e.localArrV[al][i])
+		}
+		e.litVals[nt.S] = vals
 		e.assert(fmt.Sprintf("(= (%s.len %s) %d)", s, nt.S, arrT.Len()))
 		for i := 0; i < int(arrT.Len()); i++ {
 			el := zs
